@@ -3,6 +3,7 @@ CONSTANTS
   RewriteAllSites = TRUE
   RewriteOnEndpoint <- AllEndpoints
   SingleApplyPath = TRUE
+  SiteIndependent = TRUE
   Mode = "mc"
   MaxReq = 2
   MaxClock = 3
